@@ -166,6 +166,11 @@ def check_history(acts, preds, maxcache, oracle, out, label):
             if pred != rec['out']:
                 why = 'outcome %s differs from the specification\'s prediction %s' \
                       % (json.dumps(rec['out'])[:300], json.dumps(pred)[:300])
+        if why is None and B.has_log(act[1]):
+            v_out, v_text, _ = oracle.get(B.unlogged(act[1]), rec['star'], rec['regs'])
+            if (v_out, v_text) != (fresh_out, fresh_text):
+                why = 'rendering the inner call\'s error (str(e)) before re-raising it changed the outer call: ' \
+                      'outcome / error text differ from the same call without the str()'
         if why is None and rec['diff']:
             why = 'frame condition: %s changed (structure or identity) during the call' % rec['diff']
         elif why is None and fresh_diff:
@@ -251,7 +256,7 @@ def rand_path(rng):
     return {'op': 'path', 'text': '.'.join(segs), 'segs': segs}
 
 
-def rand_spec(rng, depth, sids, last=True, nest=0):
+def rand_spec(rng, depth, sids, last=True, nest=0, inref=False):
     """random spec from the grammar of GlomCalls; mode wrappers (fill, group) only where they
     are not a non-last tuple step (that is C08's subject)"""
     r = rng.random()
@@ -263,35 +268,41 @@ def rand_spec(rng, depth, sids, last=True, nest=0):
         return {'op': 'read', 'name': rng.choice(B.NAME_ORDER)}
     if r < 0.54:
         n = rng.randint(1, 3)
-        return {'op': 'tuple', 'c': [rand_spec(rng, depth - 1, sids, last=(i == n - 1), nest=nest) for i in range(n)]}
+        return {'op': 'tuple', 'c': [rand_spec(rng, depth - 1, sids, last=(i == n - 1), nest=nest, inref=inref) for i in range(n)]}
     if r < 0.62:
         keys = rng.sample(['p', 'q', 'r'], rng.randint(1, 3))
-        return {'op': 'dict', 'items': [[k, rand_spec(rng, depth - 1, sids, nest=nest)] for k in keys],
+        return {'op': 'dict', 'items': [[k, rand_spec(rng, depth - 1, sids, nest=nest, inref=inref)] for k in keys],
                 'sp': rng.choice(['dict', 'dict', 'invoke'])}
     if r < 0.72:
-        return {'op': 'each', 'sp': rng.choice(['list', 'iter']), 'c': rand_spec(rng, depth - 1, sids, nest=nest)}
+        return {'op': 'each', 'sp': rng.choice(['list', 'list', 'iter', 'iter', 'uniq']), 'c': rand_spec(rng, depth - 1, sids, nest=nest, inref=inref)}
     if r < 0.82:
         d = rng.choice([{'has': False, 'v': {'k': 'none'}, 's': []}, {'has': True, 'v': {'k': 'list', 'v': []}, 's': []},
                         {'has': True, 'v': {'k': 'int', 'i': 0}, 's': []}, {'has': True, 'v': {'k': 'none'}, 's': []},
                         {'has': True, 'v': {'k': 'none'}, 's': [rand_arglist(rng, sids, nest)]},
                         {'has': True, 'v': {'k': 'none'}, 's': [rand_arglist(rng, sids, nest)]}])
-        return {'op': 'coal', 'c': [rand_spec(rng, depth - 1, sids, nest=nest) for _ in range(rng.randint(1, 3))], 'd': d}
+        return {'op': 'coal', 'c': [rand_spec(rng, depth - 1, sids, nest=nest, inref=inref) for _ in range(rng.randint(1, 3))], 'd': d}
     if r < 0.88:
-        return {'op': 'bind', 'name': rng.choice(B.NAME_ORDER), 'c': rand_spec(rng, depth - 1, sids, nest=nest)}
-    if r < 0.905:
+        return {'op': 'bind', 'name': rng.choice(B.NAME_ORDER), 'c': rand_spec(rng, depth - 1, sids, nest=nest, inref=inref)}
+    if r < 0.895:
         return {'op': 'acc', 'kind': 'fold', 'f': rng.choice(['id', 'inc', 'inc', 'boom'])}
+    if r < 0.9:
+        return {'op': 'tplus', 'v': {'k': 'list', 'v': [{'k': 'int', 'i': rng.randint(0, 9)}]}}
+    if r < 0.905:
+        return {'op': 'refuse', 'name': rng.choice(['n', 'm'])} if not inref else rand_path(rng)
+    if r < 0.91 and not inref:
+        return {'op': 'refdef', 'name': rng.choice(['n', 'm']), 'c': rand_spec(rng, depth - 1, sids, nest=nest, inref=True)}
     if r < 0.915:
         return {'op': 'lastvar', 'init': rng.randint(0, 3)}
     if r < 0.93:
         return {'op': 'invoke', 'c': rng.choice([{'op': 'path', 'text': 'opts', 'segs': ['opts']}, rand_path(rng)]),
                 'k': rng.choice(['k', 'a', 'z']), 'v': {'k': 'int', 'i': rng.randint(0, 9)}}
     if r < 0.96 and nest < 2:
-        return {'op': 'nest', 'call': rand_call(rng, sids, depth - 1, nest + 1)}
+        return {'op': 'nest', 'call': rand_call(rng, sids, depth - 1, nest + 1), 'log': rng.random() < 0.5}
     if not last:
         return rand_path(rng)
     if rng.random() < 0.5:
         return {'op': 'acc', 'kind': 'group', 'f': rng.choice(['id', 'inc', 'inc', 'boom'])}
-    return {'op': 'fill', 'c': rand_spec(rng, depth - 1, sids, nest=nest)}
+    return {'op': 'fill', 'c': rand_spec(rng, depth - 1, sids, nest=nest, inref=inref)}
 
 
 def rand_arglist(rng, sids, nest):
@@ -302,7 +313,7 @@ def rand_arglist(rng, sids, nest):
             return {'op': 'probe', 'f': rng.choice(['id', 'id', 'inc']), 'r': False}
         if r < 0.85 or nest >= 2:
             return {'op': 'read', 'name': rng.choice(B.NAME_ORDER)}
-        return {'op': 'nest', 'call': rand_call(rng, sids, 1, nest + 1)}
+        return {'op': 'nest', 'call': rand_call(rng, sids, 1, nest + 1), 'log': rng.random() < 0.5}
     return {'op': 'arglist', 'c': [elem() for _ in range(rng.randint(1, 3))]}
 
 
@@ -495,9 +506,10 @@ def main(tier, seed):
 
 
 def _main(check, tier, seed):
-    configs = {'quick': [dict(PoolSize=10, MaxHist=3, MaxToggles=1, MaxRegs=1)],
-               'thorough': [dict(PoolSize=16, MaxHist=3, MaxToggles=2, MaxRegs=2),
-                            dict(PoolSize=9, MaxHist=4, MaxToggles=1, MaxRegs=1)]}[tier]
+    configs = {'quick': [dict(PoolFrom=1, PoolSize=10, MaxHist=3, MaxToggles=1, MaxRegs=1),
+                         dict(PoolFrom=11, PoolSize=4, MaxHist=3, MaxToggles=1, MaxRegs=1)],
+               'thorough': [dict(PoolFrom=1, PoolSize=20, MaxHist=3, MaxToggles=2, MaxRegs=1),
+                            dict(PoolFrom=1, PoolSize=9, MaxHist=4, MaxToggles=1, MaxRegs=1)]}[tier]
     rows, drift, results = [], [], []
     for consts in configs:
         _CFG.update(maxhist=consts['MaxHist'], maxcache=1, rows_per_chunk=40)
@@ -538,7 +550,7 @@ def _main(check, tier, seed):
     check.extra['mechanism_drift'] = drift[:5]
     check.extra['mechanism_drift_count'] = len(drift)
     # vacuity: the same histories at the finest grain; every step kind and branch must occur
-    vres = vlib.run_tlc('MC_C06', cfg='MC_C06_fine', constants=dict(PoolSize=16, MaxHist=2, MaxToggles=2, MaxRegs=2, Mutant='""'), heap='6g')
+    vres = vlib.run_tlc('MC_C06', cfg='MC_C06_fine', constants=dict(PoolFrom=1, PoolSize=20, MaxHist=2, MaxToggles=2, MaxRegs=2, Mutant='""'), heap='6g')
     vlib.tlc_must_pass(vres, 'MC_C06 fine-grained')
     check.add_tlc(vres, 'MC_C06 fine-grained (vacuity)')
     cov = B.mechanism_coverage([j['hist'] for j in vres['json'] if 'hist' in j])
@@ -557,11 +569,11 @@ def _main(check, tier, seed):
         # spec mutants: the law must be violated
         mres = {}
         for m, law in MUTANTS.items():
-            r = vlib.run_tlc('MC_C06', cfg='MC_C06_mutant', constants=dict(PoolSize=16, MaxHist=3, MaxToggles=2, MaxRegs=2, Mutant='"%s"' % m))
+            r = vlib.run_tlc('MC_C06', cfg='MC_C06_mutant', constants=dict(PoolFrom=1, PoolSize=20, MaxHist=3, MaxToggles=2, MaxRegs=2, Mutant='"%s"' % m))
             mres[m] = r['violated']
             if r['violated'] != law:
                 raise vlib.MachineryError('spec mutant %s: expected %s violated, TLC says %s' % (m, law, r['violated']))
-        r = vlib.run_tlc('MC_C06', cfg='MC_C06_mutant_frame', constants=dict(PoolSize=16, MaxHist=3, MaxToggles=2, MaxRegs=2, Mutant='"acconspec"'))
+        r = vlib.run_tlc('MC_C06', cfg='MC_C06_mutant_frame', constants=dict(PoolFrom=1, PoolSize=20, MaxHist=3, MaxToggles=2, MaxRegs=2, Mutant='"acconspec"'))
         mres['acconspec/frame'] = r['violated']
         if r['violated'] != 'FrameCondition':
             raise vlib.MachineryError('spec mutant acconspec: FrameCondition not violated (%s)' % r['violated'])
